@@ -417,6 +417,11 @@ func isTimedOut(err error) bool {
 	return ok
 }
 
+func isTerminated(err error) bool {
+	_, ok := err.(liberrors.ErrServerTerminated)
+	return ok
+}
+
 func isTornDown(err error) bool {
 	_, ok := err.(liberrors.ErrServerSessionTornDown)
 	return ok
